@@ -4,12 +4,14 @@
 (*   TryAccounting, KontWF checked on every state):                                              *)
 (*     TS  throw site x handler placement x intermediate try x expression context               *)
 (*     FO  one try statement in a loop in a function: what the try block, the catch clause and   *)
-(*         the finally block do (normal, break, continue, return, throw, labelled exits),        *)
-(*         inside an outer try                                                                   *)
+(*         the finally block do (normal, break, continue, return, throw, labelled exits); loop   *)
+(*         kind (for, while, do-while, for-in, for-of); inside an outer try / for-of / for-in /  *)
+(*         switch                                                                                *)
 (*     ER  error objects of runtime errors: constructor, Error, name, line / column              *)
 (*     EL  where the faulting node stands inside its statement                                   *)
 (*     RP  n rounds of throw-and-catch in ONE evaluation (site pair x handler placement x        *)
 (*         intermediate try x n, n up to more than the engine's nesting budget)                  *)
+(*     ML  several throw sites in same-named functions of ONE evaluation, each with its location *)
 (*   Judge: as C05 (MiniJS next to the engine's log and outcome); ShiftJudge: the same program   *)
 (*   rendered k lines lower and k columns to the right reports locations shifted by exactly k.   *)
 EXTENDS C05
@@ -86,25 +88,63 @@ ActStmt(a, v) ==
   CASE a = "break" -> SBreak("") [] a = "continue" -> SCont("") [] a = "breakL" -> SBreak("L") [] a = "continueL" -> SCont("L")
     [] a = "return" -> SRet(I(v)) [] a = "throw" -> SThrow(I(v))
 When0(a, v) == IF a \in {"none", "absent"} THEN <<>> ELSE <<SIf(Bin("==", Var("i"), I(0)), SBlock(<<ActStmt(a, v)>>), NoS)>>
+\* the loop that holds the try statement (two rounds, i = 0, 1; labelled L).  for-in / for-of keep their iterator, and a
+\* switch its discriminant, as an operand while the body runs: a jump out of a finally block that discards a pending
+\* completion must leave exactly those in place
+FOLoops == {"for", "while", "dowhile", "forin", "forof"}
+FOOuters == {"none", "finally", "catch", "forof", "forin", "switch"}
+FONewOuters == {"forof", "forin", "switch"}
+FOLoop(lk, body) ==
+  LET start == SVar1("i", Bin("-", I(0), I(1)))
+      step == <<Set("i", Plus(Var("i"), I(1)))>>
+  IN CASE lk = "for" -> <<SLabel("L", SFor(SVar1("i", I(0)), Bin("<", Var("i"), I(2)), Upd("++", FALSE, "i"), SBlock(body)))>>
+       [] lk = "while" -> <<start, SLabel("L", SWhile(Bin("<", Var("i"), I(1)), SBlock(step \o body)))>>
+       [] lk = "dowhile" -> <<start, SLabel("L", SDo(SBlock(step \o body), Bin("<", Var("i"), I(1))))>>
+       [] lk = "forin" -> <<start, SLabel("L", SForIn(TRUE, "k", Obj(<<"a", "b">>, <<I(1), I(2)>>), SBlock(step \o <<SLog(Var("k"))>> \o body)))>>
+       [] lk = "forof" -> <<start, SLabel("L", SForOf(TRUE, "v", Arr(<<I(7), I(8)>>), SBlock(step \o <<SLog(Var("v"))>> \o body)))>>
 FOProg(c) ==
   LET tryb == SBlock(<<SLog(EStr("t"))>> \o When0(c.tb, 1) \o <<SLog(EStr("t2"))>>)
       catb == IF c.cb = "absent" THEN NoS ELSE SBlock(<<SLog(EStr("c")), SLog(Var("e"))>> \o When0(c.cb, 2) \o <<SLog(EStr("c2"))>>)
       finb == IF c.fb = "absent" THEN NoS ELSE SBlock(<<SLog(EStr("f"))>> \o When0(c.fb, 3) \o <<SLog(EStr("f2"))>>)
-      loop == SLabel("L", SFor(SVar1("i", I(0)), Bin("<", Var("i"), I(2)), Upd("++", FALSE, "i"),
-                               SBlock(<<SLog(Var("i")), STry(tryb, "e", catb, finb), SLog(EStr("a"))>>)))
-      inner == <<loop, SLog(EStr("z"))>>
+      loop == FOLoop(c.lk, <<SLog(Var("i")), STry(tryb, "e", catb, finb), SLog(EStr("a"))>>)
+      inner == loop \o <<SLog(EStr("z"))>>
       body == CASE c.ou = "none" -> inner
                 [] c.ou = "finally" -> <<STry(SBlock(inner), "e2", NoS, SBlock(<<SLog(EStr("F2"))>>))>>
                 [] c.ou = "catch" -> <<STry(SBlock(inner), "e2", SBlock(<<SLog(EStr("C2")), SLog(Var("e2"))>>), SBlock(<<SLog(EStr("F2"))>>))>>
+                [] c.ou = "forof" -> <<SForOf(TRUE, "w", Arr(<<I(4), I(5)>>), SBlock(<<SLog(Var("w"))>> \o inner \o <<SLog(Var("w"))>>))>>
+                [] c.ou = "forin" -> <<SForIn(TRUE, "q", Obj(<<"x", "y">>, <<I(1), I(2)>>), SBlock(<<SLog(Var("q"))>> \o inner \o <<SLog(Var("q"))>>))>>
+                [] c.ou = "switch" -> <<SSwitch(I(2), <<Case(I(1), <<SLog(EStr("s1"))>>), Case(I(2), inner), Case(I(3), <<SLog(EStr("s3"))>>)>>)>>
   IN Prog(<<SFun("f", <<>>, body \o <<SLog(EStr("e")), SRet(I(5))>>),
             STry(SBlock(<<SLog(Plus(I(100), Call(Var("f"), <<>>)))>>), "e9", SBlock(<<SLog(EStr("X")), SLog(Var("e9"))>>), NoS),
             SLog(I(50))>>)
-FOAll == [tb : Acts, cb : Acts \cup {"absent"}, fb : Acts \cup {"absent"}, ou : {"none", "finally", "catch"}]
+FOAll == [tb : Acts, cb : Acts \cup {"absent"}, fb : Acts \cup {"absent"}, ou : FOOuters, lk : FOLoops]
 FOValid(c) == ~(c.cb = "absent" /\ c.fb = "absent")
-FOQuickSel(c) == \/ (c.ou = "none" /\ {c.tb, c.cb, c.fb} \cap {"breakL", "continueL"} = {})
-                 \/ (c.ou # "none" /\ c.tb \in {"throw", "return", "break"} /\ c.cb \in {"absent", "none", "throw"} /\ c.fb \in {"absent", "none", "continue"})
-                 \/ (c.ou = "none" /\ c.tb \in {"breakL", "continueL"} /\ c.cb = "absent" /\ c.fb = "none")
-FOCases == {c \in FOAll : FOValid(c) /\ (~Quick \/ FOQuickSel(c))}
+\* quick: the sub-grid of the first rounds for the plain for loop; every other loop kind with the exits that matter for operands
+\* (throw / return / continue out of the try block, catch absent / throwing / catching before a jump, finally absent / normal / break / continue);
+\* every new outer construct around the two iterating loops and around the plain loop with a pending completion overridden
+FOQuickSel(c) ==
+  \/ (c.lk = "for" /\ c.ou = "none" /\ {c.tb, c.cb, c.fb} \cap {"breakL", "continueL"} = {})
+  \/ (c.lk = "for" /\ c.ou \in {"finally", "catch"} /\ c.tb \in {"throw", "return", "break"} /\ c.cb \in {"absent", "none", "throw"} /\ c.fb \in {"absent", "none", "continue"})
+  \/ (c.lk = "for" /\ c.ou = "none" /\ c.tb \in {"breakL", "continueL"} /\ c.cb = "absent" /\ c.fb = "none")
+  \/ (c.lk # "for" /\ c.ou = "none" /\ c.tb \in {"throw", "return", "continue"} /\ c.cb \in {"absent", "throw"} /\ c.fb \in {"absent", "none", "break", "continue"})
+  \/ (c.lk # "for" /\ c.ou = "none" /\ c.tb = "throw" /\ c.cb = "none" /\ c.fb \in {"break", "continue"})
+  \/ (c.lk \in {"forin", "forof"} /\ c.ou \in FONewOuters /\ c.tb \in {"throw", "return"} /\ c.cb = "absent" /\ c.fb \in {"break", "continue"})
+  \/ (c.lk \in {"forin", "forof"} /\ c.ou \in FONewOuters /\ c.tb = "throw" /\ c.cb = "none" /\ c.fb \in {"break", "continue"})
+  \/ (c.lk = "for" /\ c.ou \in FONewOuters /\ c.tb \in {"throw", "return"} /\ c.cb = "absent" /\ c.fb \in {"break", "continueL"})
+FOSel(c) == FOValid(c) /\ (~Quick \/ FOQuickSel(c))
+FOCases == {c \in FOAll : FOSel(c)}
+\* law of the sub-grid (evaluated on the selection predicate, the set is not rebuilt): every loop kind and every outer construct
+\* occurs, every iterating loop inside every new outer construct; in every loop kind, and in an iterating loop inside every new
+\* outer construct, a pending throw and a pending return are overridden by break and by continue in the finally block of a try
+\* statement without catch clause; in every loop kind a throw is caught and the catch clause throws into a finally block that jumps
+FOCase(tb, cb, fb, ou, lk) == [tb |-> tb, cb |-> cb, fb |-> fb, ou |-> ou, lk |-> lk]
+FOGridLaw ==
+  /\ \A lk \in FOLoops : \E tb \in Acts, fb \in Acts : FOSel(FOCase(tb, "none", fb, "none", lk))
+  /\ \A ou \in FOOuters : \E tb \in Acts, cb \in {"absent", "none"}, fb \in Acts : FOSel(FOCase(tb, cb, fb, ou, "for"))
+  /\ \A lk \in FOLoops, tb \in {"throw", "return"}, fb \in {"break", "continue"} : FOSel(FOCase(tb, "absent", fb, "none", lk))
+  /\ \A lk \in {"forin", "forof"}, ou \in FONewOuters, tb \in {"throw", "return"}, fb \in {"break", "continue"} : FOSel(FOCase(tb, "absent", fb, ou, lk))
+  /\ \A lk \in FOLoops, fb \in {"break", "continue"} : FOSel(FOCase("throw", "throw", fb, "none", lk))
+ASSUME FOGridLaw
 
 \* ======================= family ER: error objects ================================================
 ERSites == {"nullmember", "undefmember", "callnonfn", "unknownid", "methundef", "masgnull", "throwerr", "throwtype", "throwplain", "rethrown"}
@@ -329,14 +369,78 @@ RPGridLaw ==
   /\ \A nn \in RPCounts, st \in RPSites : \E c \in RPCases : c.n = nn /\ c.sa = st
 ASSUME RPGridLaw
 
+\* ======================= family ML: several throw sites in ONE evaluation, each with its own location =======
+\* The property asks for the line / column of THE throw, for every throw: an evaluation in which two (three) different sites
+\* raise must report, for each error, the place of its own site - whatever was located before it.  Copy 1 and copy 2 of the
+\* site stand in two different functions that come into being in the same way (so they have the same name, or none) and
+\* have the same shape when sa = sb; each is invoked under its own handler, which reports name, line, column.  Where the
+\* function is kept in a variable, copy 1 is invoked once more at the end (it must report its first location again).
+\*   form : how the two functions are made and invoked (callback literal of forEach, arrow callback, function expression in a
+\*          variable, arrow in a variable, named function expression - the same name twice -, function expression called on
+\*          the spot, inner declaration of the same name in two outer functions, method / getter of the same key of two objects)
+\*   sa, sb : site kind of copy 1 / copy 2;   pos : everything at script level or inside one function
+MLForms == {"cb", "cbarrow", "fexpr", "arrow", "nfexpr", "iife", "inner", "method", "getter"}
+MLStored == MLForms \ {"cb", "cbarrow", "iife"}
+MLSiteSeq == <<"nullmember", "undefmember", "callnonfn", "unknownid", "methundef", "masgnull", "throwstmt">>
+MLSites == {MLSiteSeq[j] : j \in 1..Len(MLSiteSeq)}
+MLNext(st) == LET j == CHOOSE q \in 1..Len(MLSiteSeq) : MLSiteSeq[q] = st IN MLSiteSeq[(j % Len(MLSiteSeq)) + 1]
+MLSite(st, n) ==
+  CASE st = "throwstmt" -> <<SLog(EStr("s")), SThrowAt(n, New(Var("RangeError"), <<EStr("m")>>))>>
+    [] st = "nullmember" -> <<SVar1("u", ENull), SRet(DotAt(n, Var("u"), "x"))>>
+    [] st = "undefmember" -> <<SVar1("u", NoE), SRet(MemAt(n, Var("u"), EStr("x")))>>
+    [] st = "callnonfn" -> <<SVar1("u", I(5)), SRet(CallAt(n, Var("u"), <<I(1)>>))>>
+    [] st = "unknownid" -> <<SLog(EStr("s")), SRet(Plus(I(1), VarAt(n, "zz")))>>
+    [] st = "methundef" -> <<SVar1("u", Obj(<<"a">>, <<I(1)>>)), SRet(CallAt(n, Dot(Var("u"), "nope"), <<I(1)>>))>>
+    [] st = "masgnull" -> <<SVar1("u", ENull), SExpr(MAsg(DotAt(n, Var("u"), "x"), I(3))), SRet(I(1))>>
+MLName(j) == IF j = 1 THEN "a1" ELSE "a2"
+\* the statements that make copy j, and the statement that invokes it
+MLDef(form, j, site) ==
+  CASE form = "fexpr" -> <<SVar1(MLName(j), Fun("", <<>>, site))>>
+    [] form = "arrow" -> <<SVar1(MLName(j), Arrow(<<>>, site))>>
+    [] form = "nfexpr" -> <<SVar1(MLName(j), Fun("nm", <<>>, site))>>
+    [] form = "inner" -> <<SFun(MLName(j), <<>>, <<SFun("w", <<>>, site), SRet(Call(Var("w"), <<>>))>>)>>
+    [] form = "method" -> <<SVar1(MLName(j), Obj(<<"run">>, <<Fun("", <<>>, site)>>))>>
+    [] form = "getter" -> <<SVar1(MLName(j), ObjK(<<"p">>, <<"get">>, <<Fun("", <<>>, site)>>))>>
+    [] OTHER -> <<>>
+MLInvoke(form, j, site) ==
+  CASE form = "cb" -> SExpr(Call(Dot(Arr(<<I(1)>>), "forEach"), <<Fun("", <<"q">>, site)>>))
+    [] form = "cbarrow" -> SExpr(Call(Dot(Arr(<<I(1)>>), "forEach"), <<Arrow(<<"q">>, site)>>))
+    [] form = "iife" -> SLog(Call(Fun("", <<>>, site), <<>>))
+    [] form = "method" -> SLog(Call(Dot(Var(MLName(j)), "run"), <<>>))
+    [] form = "getter" -> SLog(Dot(Var(MLName(j)), "p"))
+    [] OTHER -> SLog(Call(Var(MLName(j)), <<>>))
+MLReport == SBlock(<<SLog(Dot(Var("e9"), "name")), SLog(Dot(Var("e9"), "lineNumber")), SLog(Dot(Var("e9"), "columnNumber"))>>)
+MLUnit(form, j, site) == STry(SBlock(<<MLInvoke(form, j, site)>>), "e9", MLReport, NoS)
+MLProg(c) ==
+  LET s1 == MLSite(c.sa, 1)
+      s2 == MLSite(c.sb, 2)
+      units == MLDef(c.form, 1, s1) \o MLDef(c.form, 2, s2) \o <<SLog(I(0)), MLUnit(c.form, 1, s1), SVar1("between", I(1)), MLUnit(c.form, 2, s2)>>
+               \o (IF c.form \in MLStored THEN <<MLUnit(c.form, 1, s1)>> ELSE <<>>)
+  IN IF c.pos = "top" THEN Prog(units \o <<SLog(I(50))>>)
+     ELSE Prog(<<SFun("f", <<>>, units \o <<SRet(I(1))>>), SLog(Call(Var("f"), <<>>)), SLog(I(50))>>)
+MLAll == [form : MLForms, sa : MLSites, sb : MLSites, pos : {"top", "fn"}]
+\* quick: same-shaped pairs: every form with a runtime error and with a throw statement, every site in a callback literal and in
+\* an arrow, every form inside a function; differently shaped pairs: every site followed by the next one, in callback literals
+MLQuickSel(c) ==
+  \/ (c.sa = c.sb /\ c.pos = "top" /\ c.sa \in {"nullmember", "throwstmt"})
+  \/ (c.sa = c.sb /\ c.pos = "top" /\ c.form \in {"cb", "arrow"})
+  \/ (c.sa = c.sb /\ c.pos = "fn" /\ c.sa = "callnonfn")
+  \/ (c.sb = MLNext(c.sa) /\ c.pos = "top" /\ c.form = "cb")
+MLCases == {c \in MLAll : ~Quick \/ MLQuickSel(c)}
+MLGridLaw ==
+  /\ \A fm \in MLForms, ps \in {"top", "fn"} : \E c \in MLCases : c.form = fm /\ c.pos = ps /\ c.sa = c.sb
+  /\ \A st \in MLSites : (\E c \in MLCases : c.sa = st /\ c.sb = st) /\ (\E c \in MLCases : c.sa = st /\ c.sb # st)
+ASSUME MLGridLaw
+
 \* ======================= enumeration =================================================================
 C07Prog(cs) == CASE cs.fam = "TS" -> TSProg(cs.c) [] cs.fam = "FO" -> FOProg(cs.c) [] cs.fam = "ER" -> ERProg(cs.c)
-                 [] cs.fam = "EL" -> ELProg(cs.c) [] cs.fam = "RP" -> RPProg(cs.c)
+                 [] cs.fam = "EL" -> ELProg(cs.c) [] cs.fam = "RP" -> RPProg(cs.c) [] cs.fam = "ML" -> MLProg(cs.c)
 C07Cases == (IF Has("TS") THEN {[fam |-> "TS", c |-> c] : c \in TSCases} ELSE {})
             \cup (IF Has("FO") THEN {[fam |-> "FO", c |-> c] : c \in FOCases} ELSE {})
             \cup (IF Has("ER") THEN {[fam |-> "ER", c |-> c] : c \in ERCases} ELSE {})
             \cup (IF Has("EL") THEN {[fam |-> "EL", c |-> c] : c \in ELCases} ELSE {})
             \cup (IF Has("RP") THEN {[fam |-> "RP", c |-> c] : c \in RPCases} ELSE {})
+            \cup (IF Has("ML") THEN {[fam |-> "ML", c |-> c] : c \in MLCases} ELSE {})
 \* the programs of RPMany rounds need more steps than MaxSteps (EnumTerminates: none of them runs into the larger bound).
 \* Enumeration run: every program is run step by step, every state and transition checked, for its first MaxSteps steps (the
 \* bound under which all other programs live: about twenty rounds); beyond that k steps are one transition, the state
